@@ -142,6 +142,36 @@ Theorem C05_move_refuted : forall b,
 Proof. intros b. split; [apply move_refuted|apply move_source_refuted]. Qed.
 Print Assumptions C05_move_refuted.
 
+(* ---- attribute access (descriptor.__get__): what the application sees ---- *)
+
+(* a stored value - whatever its truth value: False, 0, 0.0, Decimal 0, '' - is what attribute access returns *)
+Theorem C05_attribute_access_returns_present_value : forall fz p implied raw, raw <> VNone ->
+  public_get get_impl fz p implied raw = raw.
+Proof. exact public_get_present. Qed.
+Print Assumptions C05_attribute_access_returns_present_value.
+
+(* the implied value is what attribute access returns when nothing is stored *)
+Theorem C05_attribute_access_absent_is_implied : forall g fz p i, base_get (p_kind p) = true ->
+  public_get g fz p (Some i) VNone = i.
+Proof. exact public_get_absent. Qed.
+Print Assumptions C05_attribute_access_absent_is_implied.
+
+(* write, read back, look through attribute access: every member that carried a value shows that value *)
+Theorem C05_public_roundtrip : forall classes, (forall c, In c classes -> wf_slots c) ->
+  forall fz n cid fs tag t c impls, valid classes n (VStruct cid fs) -> enc classes n (VStruct cid fs) tag = Some t ->
+  lookup classes cid = Some c -> length impls = length (c_props c) ->
+  exists fs', dec classes n cid t = Some (VStruct cid fs') /\
+              Forall2 (fun w pub => w <> VNone -> pub = w) fs (public_all get_impl fz (c_props c) impls fs').
+Proof. exact public_roundtrip. Qed.
+Print Assumptions C05_public_roundtrip.
+
+(* `if not value` instead of `if value is None`: EVERY stored falsy value that differs from the implied value is
+   replaced by it (Retriggerable="false" reads true, Qi="0" reads 1, PT0S reads 1 s, Lang="" reads "en") *)
+Theorem C05_get_if_falsy_refuted : forall fz p i raw, base_get (p_kind p) = true -> raw <> VNone -> fz raw = true ->
+  i <> raw -> public_get GetIfFalsy fz p (Some i) raw = i /\ public_get GetIfFalsy fz p (Some i) raw <> raw.
+Proof. exact get_if_falsy_refuted. Qed.
+Print Assumptions C05_get_if_falsy_refuted.
+
 (* non-vacuity: a nested value with an extension, an xsi:type substitution, empty strings, a defaulted member *)
 Example C05_nonvacuous :
   forallb wf_class demo_classes = true /\
@@ -163,4 +193,12 @@ Example C05_history_nonvacuous :
   = [([], [Node 99%N [] (Some [6%Z]) []]);
      ([[Node 99%N [] (Some [6%Z]) []]], [Node 99%N [] (Some [6%Z]) []]);
      ([[Node 99%N [] (Some [6%Z]) []]; [Node 99%N [] (Some [6%Z]) []]], [Node 99%N [] (Some [6%Z]) []])].
+Proof. repeat split. Qed.
+
+(* Retriggerable="false" with implied value true: atom 2 = "false" (falsy), atom 1 = "true" *)
+Example C05_get_nonvacuous :
+  let p := mkProp KAttr (Some 40%N) COther true false false 0%N false in
+  run_get (p, Some (VAtom 1), true, VAtom 2) = VAtom 2 /\
+  public_get GetIfFalsy (fun _ => true) p (Some (VAtom 1)) (VAtom 2) = VAtom 1 /\
+  run_get (p, Some (VAtom 1), true, VNone) = VAtom 1.
 Proof. repeat split. Qed.
